@@ -95,3 +95,75 @@ contract(F, "UnionProvider._get_loader_dt_all.<locals>.union_loader_dt_all", nam
          loops={0: LoopSpec(inv=[ALL_INV, "forall(lambda c: implies(0 <= c and c < _i and ok(loader_iter[c], data), exists(lambda j: 0 <= j and j < c and "
                                  "not ok(loader_iter[j], data) and not issub(errcls(loader_iter[j], data), LoadError))))"])},
          clause_props=ANY_CP, cover=["returned", "raised"])
+
+
+# ================================================================================================ dumpers
+# documented (specific-types-behavior.rst, Union): "Dumper finds appropriate dumper using object type ... for objects of types that are
+# not listed in the union, but which are a subclass of some union case, the base class dumper is used. If there are several parents, it
+# will be the selected class that appears first in .mro() list."  The choice by class is ClassDispatcher.dispatch (proved: first in MRO,
+# contracts/datastructures.py); here: the union dumper asks exactly that dispatcher with exactly type(data) and applies what it returns.
+class _Base:
+    pass
+
+
+class _Mid(_Base):
+    pass
+
+
+class _Leaf(_Mid):
+    pass
+
+
+class _Other:
+    pass
+
+
+def _union_dumper_scenarios(kind):
+    def gen(mod):
+        from adaptix._internal.datastructures import ClassDispatcher
+        out = []
+        for cases in ([_Base, _Mid], [_Mid, _Base], [_Base], [_Base, _Other]):
+            for obj_cls in (_Base, _Mid, _Leaf, _Other):
+                def factory(cases=cases, obj_cls=obj_cls):
+                    disp = ClassDispatcher({c: (lambda d, c=c: ("dumped-as", c.__name__)) for c in cases})
+                    prov = mod.UnionProvider()
+                    if kind == "plain":
+                        clo = prov._produce_dumper(disp)
+                    else:
+                        clo = prov._produce_dumper_for_literal(disp, (lambda d: ("literal", d)), ("lit", 7))
+                    data = obj_cls()
+                    return (lambda data: clo(data)), {"data": data}, {
+                        "dumper_type_dispatcher": disp, "res": lambda f, d: f(d), "mcall": lambda name, o, *a: getattr(o, name)(*a),
+                        "mok": lambda name, o, *a: _ok(getattr(o, name), *a)}
+                out.append((f"cases={[c.__name__ for c in cases]}|{obj_cls.__name__}", factory))
+        return out
+    return gen
+
+
+def _ok(f, *a):
+    try:
+        f(*a)
+        return True
+    except Exception:  # noqa: BLE001
+        return False
+
+
+DISPATCHED = "mcall('dispatch', dumper_type_dispatcher, type(data))"
+contract(F, "UnionProvider._produce_dumper.<locals>.union_dumper", props=["C02", "C01", "C20"],
+         via=Via("UnionProvider._produce_dumper", {"": lambda m: m.UnionProvider()}, args={"dumper_type_dispatcher": "sym"}),
+         params={"data": "D"}, methods={"dispatch": "VAL_OR_RAISE"}, decl_disciplines={"mcall_dispatch": "DUMP"},
+         post={"dispatch-by-class": f"implies(returned, result == res({DISPATCHED}, data))",
+               "asks-the-dispatcher-once": "mcalls('dispatch') == 1",
+               "no-case-no-result": f"implies(not mok('dispatch', dumper_type_dispatcher, type(data)), raised)"},
+         clause_props={"dispatch-by-class": ["C02", "C01"], "asks-the-dispatcher-once": ["C02"], "no-case-no-result": ["C02"],
+                       "modifies-nothing": ["C20"]},
+         scenarios=_union_dumper_scenarios("plain"), cover=["returned", "raised"])
+
+contract(F, "UnionProvider._get_single_optional_dumper.<locals>.optional_dumper", props=["C02", "C01", "C06", "C20"],
+         via=Via("UnionProvider._get_single_optional_dumper", {"": lambda m: m.UnionProvider()}, args={"dumper": "DUMP"}),
+         params={"data": "D"},
+         post={"accept-iff": "returned == (data is None or ok(dumper, data))",
+               "value": "implies(returned, ite(data is None, result is None, result == res(dumper, data)))",
+               "error": "implies(raised, is_err(exc, dumper, data) and trail_unchanged(exc))"},
+         clause_props={"accept-iff": ["C02", "C06"], "value": ["C02", "C01", "C06"], "error": ["C05", "C06"], "modifies-nothing": ["C20"]},
+         cover=["returned", "raised"])
